@@ -4,29 +4,56 @@
    Only statements, each closed by [exact]. *)
 From Coq Require Import List Arith Bool PeanoNat Permutation.
 From Krrood Require Import Onto.RegistrySpec Onto.Registry Onto.RegistryInv Onto.RegistryProofs Onto.RegistryQuery
-  Onto.RegistryRel Onto.Lifetime Onto.RegistryWitness Onto.RegistryGen.
+  Onto.RegistryRel Onto.RegistryLive Onto.Lifetime Onto.RegistryWitness Onto.RegistryGen.
 Import ListNotations.
 
-(* the SymbolGraph reaches instances through weak references only *)
-Theorem C20_registry_weak : forall s o, ~ sreach (refs s) HSymbolGraph (HObj o).
-Proof. exact registry_holds_nothing. Qed.
+(* neither the SymbolGraph (weak references only) nor the expression tables (query objects hold no instance) reach an
+   instance through strong references *)
+Theorem C20_krrood_holds_nothing : forall s a o, a = HSymbolGraph \/ a = HExprTable -> ~ sreach (refs s) a (HObj o).
+Proof. exact krrood_holds_nothing. Qed.
 
-(* every existing instance is referenced by the program or by the cached domain of an evaluated query; nothing else *)
+(* after ANY history every existing instance is referenced by the program: directly, or as a row of a live iterator it holds *)
 Theorem C20_accounted : forall children fuel h s, Accounted s -> Accounted (fst (run children fuel s h)).
 Proof. exact run_Accounted. Qed.
 
-(* declaring a domain-less variable (let(T, None) without evaluating) reads nothing and holds nothing *)
-Theorem C20_declare_holds_nothing : forall children fuel s T o,
+(* ... so when no live iterator holds a row, what exists is exactly what the program references: declared variables,
+   completed or closed evaluations and the symbol graph retain nothing *)
+Theorem C20_no_retention : forall children fuel h o,
+  (forall x, pinned (evals (fst (run children fuel init h))) x = false) ->
+  (In o (map o_id (live (fst (run children fuel init h)))) <-> In o (user (fst (run children fuel init h)))).
+Proof. exact existing_is_referenced. Qed.
+
+(* dropping the last reference reclaims the instance, in any state, unless a live iterator has handed it out *)
+Theorem C20_drop_reclaims : forall children fuel s o,
+  pinned (evals s) o = false -> ~ In o (map o_id (live (fst (step children fuel s (Drop o))))).
+Proof. exact drop_reclaims. Qed.
+
+(* a live evaluation holds exactly the rows it has handed out ... *)
+Theorem C20_live_iterator_holds : forall s o, pinned (evals s) o = true -> sreach (refs s) HProgram (HObj o).
+Proof. exact live_iterator_holds. Qed.
+
+Theorem C20_live_holds_rows : forall children fuel s n y v e,
+  nth_error (evals s) n = Some (Some e) -> e_started e = true ->
+  snd (step children fuel s (NextV n y)) = OInst [v] ->
+  exists e', nth_error (evals (fst (step children fuel s (NextV n y)))) n = Some (Some e') /\ e_seen e' = e_seen e ++ [v].
+Proof. exact next_holds_row. Qed.
+
+(* ... and closing (or finalising) it releases what only it was holding *)
+Theorem C20_close_releases : forall children fuel s n x, nth_error (evals s) n <> None ->
+  In x (live (fst (step children fuel s (CloseV n)))) ->
+  In (o_id x) (user s) \/ pinned (set_nth n None (evals s)) (o_id x) = true.
+Proof. exact close_releases. Qed.
+
+(* declaring a variable and evaluating a query completely change neither who exists nor what is held *)
+Theorem C20_declare_holds_nothing : forall children fuel s T,
   live (fst (step children fuel s (DeclV T))) = live s /\ user (fst (step children fuel s (DeclV T))) = user s /\
-  g (fst (step children fuel s (DeclV T))) = g s /\
-  pinned (vars (fst (step children fuel s (DeclV T)))) o = pinned (vars s) o.
+  g (fst (step children fuel s (DeclV T))) = g s /\ evals (fst (step children fuel s (DeclV T))) = evals s.
 Proof. exact declare_holds_nothing. Qed.
 
-(* without EQL evaluation over the instance: dropping the last reference reclaims it, after any history *)
-Theorem C20_no_retention : forall children fuel h o,
-  no_eql h = true ->
-  ~ In o (map o_id (live (fst (step children fuel (fst (run children fuel init h)) (Drop o))))).
-Proof. exact drop_reclaims. Qed.
+Theorem C20_evaluation_holds_nothing : forall children fuel s q, (exists T, q = QueryE T) \/ (exists k, q = EvalV k) ->
+  live (fst (step children fuel s q)) = live s /\ user (fst (step children fuel s q)) = user s /\
+  evals (fst (step children fuel s q)) = evals s.
+Proof. exact evaluation_holds_nothing. Qed.
 
 (* the registry containers after a sweep: one node / per-class entry / id entry per existing instance ... *)
 Theorem C20_sizes : forall L r, RegInv L r -> WorldOk L -> swept L r -> AllReg L r ->
@@ -40,40 +67,33 @@ Theorem C20_no_growth : forall children fuel h,
   g (fst (step children fuel (fst (run children fuel init h)) Sweep)) = empty_reg.
 Proof. exact no_growth. Qed.
 
-(* outside: the expression table keeps every variable and the domain it cached (design of krrood; known finding) *)
-Theorem C20_cache_pins : forall s o, pinned (vars s) o = true -> sreach (refs s) HExprTable (HObj o).
-Proof. exact cache_pins. Qed.
-
-Theorem C20_refuted_query_cache :
-  exists h T, adm_run wch wfuel init h = true /\ user (fst (run wch wfuel init h)) = [] /\
-              snd (step wch wfuel (fst (run wch wfuel init h)) (QueryG T)) = OInst [Some 0] /\
-              sreach (refs (fst (run wch wfuel init h))) HExprTable (HObj 0).
-Proof. exact refuted_pinned. Qed.
-
+(* outside: the process-wide expression tables grow by one query object per declared query (known finding C20-a2) *)
 Theorem C20_refuted_expr_growth :
-  exists h, adm_run wch wfuel init h = true /\ live (fst (run wch wfuel init h)) = [O 0 0 0] /\
+  exists h, adm_run wch wfuel init h = true /\ live (fst (run wch wfuel init h)) = [] /\
             user (fst (run wch wfuel init h)) = [] /\ length (vars (fst (run wch wfuel init h))) = 3.
 Proof. exact refuted_expr_growth. Qed.
 
-(* tie to the source: the definitions regenerated from symbol_graph.py / utils.py / predicate.py / entity.py /
-   hashed_data.py / symbolic.py / singleton.py on this run (Gen/Registry.v) are the model these theorems are about *)
 Theorem C20_model_is_source : GenIsModel.
 Proof. exact gen_is_model. Qed.
 
 Example C20_nonvacuous :
-  let h := [New 0 0 0; New 0 1 1; Relate 0 0 1 0 1; Drop 0; Drop 1; Sweep; New 0 1 1; New 0 0 0] in
-  adm_run wch wfuel init h = true /\
-  snd (step wch wfuel (fst (run wch wfuel init h)) (Relate 3 0 2 0 1)) = OBool true /\
-  sizes (g (fst (run wch wfuel init h))) = [2; 2; 2; 0; 0].
-Proof. exact reuse_relation_new. Qed.
+  let h := [New 0 0 0; New 1 1 1; DeclV 0; StartV 0; NextV 0 (Some (Some 0)); Drop 0] in
+  adm_run wch wfuel init h = true /\ live (fst (run wch wfuel init h)) = [O 0 0 0; O 1 1 1] /\
+  user (fst (run wch wfuel init h)) = [1] /\ pinned (evals (fst (run wch wfuel init h))) 0 = true /\
+  live (fst (run wch wfuel init (h ++ [CloseV 0]))) = [O 1 1 1] /\
+  a_live (fst (spec_run wch wfuel a_init (h ++ [CloseV 0]))) = [O 1 1 1].
+Proof. exact live_iterator_holds_rows. Qed.
 
-Print Assumptions C20_registry_weak.
+Print Assumptions C20_krrood_holds_nothing.
 Print Assumptions C20_accounted.
 Print Assumptions C20_no_retention.
+Print Assumptions C20_drop_reclaims.
+Print Assumptions C20_live_iterator_holds.
+Print Assumptions C20_live_holds_rows.
+Print Assumptions C20_close_releases.
+Print Assumptions C20_declare_holds_nothing.
+Print Assumptions C20_evaluation_holds_nothing.
 Print Assumptions C20_sizes.
 Print Assumptions C20_no_growth.
-Print Assumptions C20_cache_pins.
-Print Assumptions C20_refuted_query_cache.
 Print Assumptions C20_refuted_expr_growth.
 Print Assumptions C20_model_is_source.
-Print Assumptions C20_declare_holds_nothing.
